@@ -534,13 +534,19 @@ def _files_to_push(ctx, R, T):
         conds = []
         for (te, val) in path_conditions(ctx, f, rn):
             from ..util import subst_copies
-            conds.append((subst_copies(ctx, f, rn, te), val))
+            conds.append((subst_copies(ctx, f, rn, te, predicates=True), val))
         isdir = decide_under(conds, isdir_ast)
         if flag[0] == "c" and isinstance(flag[1], bool):
             R.check(isdir is flag[1], "DIR", sub + "|flag", "flag = not BytesIO and os.path.isdir(local_path) (as decided by the tests leading here)",
                     "the directory flag is the constant %s where `not isinstance(local_path, BytesIO) and os.path.isdir(local_path)` is %s" % (flag[1], "undecided" if isdir is None else isdir), f.loc(rn.ast))
         else:
-            R.check(_is_isdir(flag), "DIR", sub + "|flag", "flag = not BytesIO and os.path.isdir(local_path)", "the directory flag is %s" % show(flag), f.loc(rn.ast))
+            okf = _is_isdir(flag)
+            if not okf and isinstance(rn.ast.value, ast.Tuple) and rn.ast.value.elts:
+                # the same truth value on every path that reaches this return (`os.path.isdir(p)` after `isinstance(p, BytesIO)` was excluded)
+                from ..util import equiv_under, subst_copies as _sc
+                fe = _sc(ctx, f, rn, rn.ast.value.elts[0], predicates=True)
+                okf = not any(isinstance(x, (ast.Constant,)) and not isinstance(x.value, bool) for x in ast.walk(fe)) and equiv_under(conds, fe, isdir_ast)
+            R.check(okf, "DIR", sub + "|flag", "flag = not BytesIO and os.path.isdir(local_path)", "the directory flag is %s" % show(flag), f.loc(rn.ast))
             if isdir is None:
                 for fa in df.facts(rn):
                     if fa[0][0] == "truthy":
